@@ -49,12 +49,12 @@ def generic_replay(prop, path):
     if doc.get("kind") != "smt-model" or doc.get("inputs") is None:
         print("replay: this file carries no concrete input (no-failing-input-found); re-run the check itself")
         return 2
-    db = ContractDB(common.CONTRACTS)
     mod = importlib.import_module(f"checks.{prop.lower()}")
+    gen = []
     if hasattr(mod, "generated_sources"):
         from pyvc.frontend import Frontend
-        for name, text in mod.generated_sources(Frontend()):
-            db.load(name, text=text)
+        gen = list(mod.generated_sources(Frontend()))
+    db = ContractDB.for_target(common.CONTRACTS, doc["target"], gen)
     res = rtc.run_concrete(db, doc["target"], doc["inputs"])
     print(json.dumps(res, indent=1, default=str))
     if res.get("verdict") == "violated":
